@@ -240,6 +240,14 @@ class Interp:
             idx = self.expr(e.slice, s)
             if isinstance(base, tuple) and isinstance(idx, int):
                 return base[idx]
+            if isinstance(base, (tuple, list)) and all(isinstance(x, int) for x in base):
+                # constant table indexed by a symbolic int; out of range = IndexError
+                idx = _i(idx)
+                s.pc.append(z3.And(idx >= 0, idx < len(base)))
+                out = z3.IntVal(base[-1])
+                for k in range(len(base) - 2, -1, -1):
+                    out = z3.If(idx == k, base[k], out)
+                return out
             raise Untranslatable('subscript')
         if isinstance(e, ast.Call):
             return self.call(e, s)
@@ -348,7 +356,9 @@ def encode(kind):
         '__now__': now,
         'booted': Booted(booted_before),
     }
-    hooks = {'datetime.UTC': 'UTC', 'datetime.timezone.utc': 'UTC'}
+    import calendar
+
+    hooks = {'datetime.UTC': 'UTC', 'datetime.timezone.utc': 'UTC', 'calendar.mdays': tuple(calendar.mdays)}
     res = Interp(load_delay_ast(), env, hooks).run()
     v['booted_before'] = booted_before
     return v, res
